@@ -1,5 +1,7 @@
 import StorageModel.C15.General
 import StorageModel.C15.Config
+import StorageModel.C15.Cursor
+import StorageModel.C15.Order
 /-
   C15 — Parent and child (extension) stores stay consistent.
 
@@ -216,6 +218,160 @@ theorem uniqueness_enforced_through_child (st : St) (hr : Reached st)
   obtain ⟨h1, h2⟩ := General.uniqueness_enforced_through_child _ st (reached_general hr) s id other eo p hne ho hname
   exact ⟨fun a b => h1 a b (Or.inl create_captures_old_parent_values), h2⟩
 
+/-! ### the id cursors a store hands out, under any script of `Next` / `Seek` calls
+
+  `IdCur` (C15/Cursor.lean) follows `ForwardBoltCursor`, `uniqueIndexScanner` used as a cursor
+  (`newFilteredCursor`), `IterateIds`, `IterateValidIds` and `ValidIdsCursors` with its skip
+  loops; `ListCur` is the specification: a position in `ownedIds` — the ids of the entities the
+  store owns (plain child: the ones with child data; extended child: every parent entity, for
+  `IterateValidIds` the ones with extension data) that satisfy the filter, in key order — where
+  `Next` drops the head and `Seek v` goes to the first owned id ≥ v. -/
+
+/-- **`IterateIds` through any store, any population, any script**: what the caller sees after
+    opening the cursor and after every `Next` / `Seek` is what a list cursor over the owned ids
+    shows (rows without child data are skipped by a plain child store at the first element,
+    on `Next` and on `Seek`; a seek past the last owned id invalidates; a seek before the first
+    owned id rests on it). -/
+theorem iterate_ids_cursor_is_list_cursor (st : St) (s : Sel) (f : Filter) (script : List Step) :
+    IdCur.trace st s f (.plain (iterateIdsCur st s f)) script =
+      (ListCur.start (ownedIds st.ents s false f)).trace script := by
+  obtain ⟨g, a⟩ := iterateIdsCur_spec st s f
+  exact plain_trace st s f script _ _ g (scanned_eq_owned st s f).symm (by rw [a, scanned_eq_owned]; rfl)
+
+/-- **`IterateValidIds` through any store, any population, any script** — for the extended store
+    this is `ValidIdsCursors`: the first-element skip of `IterateValidIds`, the skip loop after
+    `wrapped.Next()` and the skip loop after `wrapped.Seek()` leave runs of plain-parent ids of
+    any length, wherever they lie in the key space. -/
+theorem iterate_valid_ids_cursor_is_list_cursor (st : St) (s : Sel) (f : Filter) (script : List Step) :
+    IdCur.trace st s f (iterateValidIdsCur st s f) script =
+      (ListCur.start (ownedIds st.ents s true f)).trace script := by
+  cases hs : s.isExtended with
+  | true =>
+    obtain ⟨c, hc, g, a⟩ := iterateValidIdsCur_extended st s f hs
+    rw [hc]
+    exact valid_trace st s f script c _ g (scanned_present_eq_owned st s f).symm
+      (by rw [a, scanned_present_eq_owned]; rfl)
+  | false =>
+    have : iterateValidIdsCur st s f = .plain (iterateIdsCur st s f) := by
+      simp [iterateValidIdsCur, hs]
+    rw [this, iterate_ids_cursor_is_list_cursor, ownedIds_validOnly_irrelevant _ _ _ hs]
+
+/-- … hence no script makes a cursor rest on an id the store does not own: through the plain
+    child store only entities with child data, through the extended store's `IterateValidIds`
+    only entities with extension data — and always entities that exist and satisfy the filter. -/
+theorem cursor_rests_only_on_owned_ids (st : St) (s : Sel) (f : Filter) (script : List Step) (id : Id) :
+    (some id ∈ IdCur.trace st s f (.plain (iterateIdsCur st s f)) script →
+      ∃ e, mget st.ents id = some e ∧ ownsEnt s false e = true ∧ f.eval e = true) ∧
+    (some id ∈ IdCur.trace st s f (iterateValidIdsCur st s f) script →
+      ∃ e, mget st.ents id = some e ∧ e.hasChild s = true ∧ f.eval e = true) := by
+  constructor
+  · intro h
+    rw [iterate_ids_cursor_is_list_cursor] at h
+    exact (mem_ownedIds _ _ _ _ _).1 (ListCur.trace_mem _ script (fun a ha => ha) id h)
+  · intro h
+    rw [iterate_valid_ids_cursor_is_list_cursor] at h
+    obtain ⟨e, he, ho, hf⟩ := (mem_ownedIds _ _ _ _ _).1 (ListCur.trace_mem _ script (fun a ha => ha) id h)
+    exact ⟨e, he, by simpa [ownsEnt] using ho, hf⟩
+
+/-- `ownsEnt` spelled out, and the list specification spelled out: `Seek v` rests on the first
+    owned id ≥ v (none: invalid), wherever the cursor was -/
+example (e : Ent) : ownsEnt .A false e = true ∧ ownsEnt .A1 false e = e.c1.isSome ∧ ownsEnt .A1 true e = e.c1.isSome ∧
+    ownsEnt .A2 false e = true ∧ ownsEnt .A2 true e = e.c2.isSome := ⟨rfl, rfl, rfl, rfl, rfl⟩
+example (lc : ListCur) (v : Id) : (lc.step (.seek v)).current = lc.all.find? (fun a => v ≤ a) := by
+  simp only [ListCur.step, ListCur.current]
+  induction lc.all with
+  | nil => rfl
+  | cons x t ih =>
+    by_cases h : x < v
+    · have h' : ¬ v ≤ x := Nat.not_le.2 h
+      simp [h, h', ih]
+    · have h' : v ≤ x := Nat.le_of_not_lt h
+      simp [h, h']
+
+/-- the list functions the other theorems speak about are these lists: a cursor walked to its
+    end with `Next` delivers `queryIds` / `iterateValidIds`, in this order -/
+theorem query_lists_are_owned_ids (st : St) (s : Sel) (f : Filter) :
+    queryIds st s f = ownedIds st.ents s false f ∧ iterateValidIds st s f = ownedIds st.ents s true f :=
+  ⟨queryIds_eq_owned st s f, iterateValidIds_eq_owned st s f⟩
+
+/-- **`QueryWithCursorC`** (the scanners' `ScanCursor` over the ids a caller's cursor provider
+    enumerates): exactly the provided ids the store owns that satisfy the filter, in the
+    provider's order (unsorted scanner) / as a set (sorting scanner) — a plain child store never
+    returns a provided id without child data. -/
+theorem query_with_cursor_only_owned_rows (st : St) (s : Sel) (f : Filter) (provided : List Id) :
+    queryWithCursor st s f provided = provided.filter (ownedPred st.ents s false f) ∧
+    (∀ id, id ∈ queryWithCursorSorted st s f provided ↔
+      id ∈ provided ∧ ownedPred st.ents s false f id = true) := by
+  have h : queryWithCursor st s f provided = provided.filter (ownedPred st.ents s false f) := by
+    unfold queryWithCursor
+    rw [scanLoop_eq_filter]
+    exact List.filter_congr (fun id _ => rowOk_eq_owned st s f id)
+  refine ⟨h, fun id => ?_⟩
+  have : queryWithCursorSorted st s f provided =
+      (queryWithCursor st s f provided).foldl (fun acc id => insRow st id acc) [] := rfl
+  rw [this, mem_foldl_insRow, h, List.mem_filter]
+  simp
+
+/-- after every history the cursor over a key of the parent's `roles` index (a typical provider)
+    enumerates exactly the entities — plain-parent and child alike — that hold the role -/
+theorem roles_index_cursor_enumerates_holders (st : St) (hr : Reached st) (r : Val) (id : Id) :
+    id ∈ rolesIndexIds st r ↔ ∃ e, mget st.ents id = some e ∧ r ∈ e.roles := by
+  obtain ⟨hist, rfl⟩ := hr
+  have hinv := parent_constraints_apply_to_child_entities hist
+  unfold rolesIndexIds
+  rw [mem_canon, ← hinv.roles r id]
+  simp
+
+/-- non-vacuity (the population of seeded change C15-4: extension data on 1 and 5 only): the
+    extended store's `IterateValidIds` cursor, sought to 2, leaves the run 2,3,4 and rests on 5;
+    with a single `if` in place of the loop of `ValidIdsCursors.Seek` it would rest on 3 -/
+def sampleMixed : St :=
+  run Config.current St.init [[.create .A2 1 ⟨1, [], none⟩, .create .A 2 ⟨2, [], none⟩, .create .A 3 ⟨3, [1], none⟩,
+    .create .A1 4 ⟨4, [1], some 1⟩, .create .A2 5 ⟨5, [], some 2⟩, .create .A 6 ⟨6, [], none⟩]]
+
+example : IdCur.trace sampleMixed .A2 .tt (iterateValidIdsCur sampleMixed .A2 .tt) [.seek 2, .next, .seek 0, .next, .seek 6] =
+    [some 1, some 5, none, some 1, some 5, none] := by decide
+example : IdCur.trace sampleMixed .A1 .tt (iterateValidIdsCur sampleMixed .A1 .tt) [.seek 2, .next, .seek 5] =
+    [some 4, some 4, none, none] := by decide
+example : ownedIds sampleMixed.ents .A2 true .tt = [1, 5] ∧ ownedIds sampleMixed.ents .A2 false .tt = [1, 2, 3, 4, 5, 6] ∧
+    ownedIds sampleMixed.ents .A1 false .tt = [4] := by decide
+example : (ScanCur.next sampleMixed .A2 .tt (ScanCur.seek sampleMixed .A2 .tt (iterateIdsCur sampleMixed .A2 .tt) 2)).current
+    = some 3 := by decide
+example : queryWithCursor sampleMixed .A1 .tt (rolesIndexIds sampleMixed 1) = [4] ∧
+    queryWithCursor sampleMixed .A2 .tt (rolesIndexIds sampleMixed 1) = [3, 4] := by decide
+
+/-! ### two child stores of one parent: the registration order -/
+
+/-- **Every child store of the parent takes part in `Update` and `DeleteById` whichever was
+    registered first**: with the child stores registered A2 (extended — its `FindById` reports
+    every parent entity), A1 instead of A1, A2 every operation on every state gives the same
+    state or the same error (so every theorem above holds for either wiring: the delete fan-out
+    still runs A1's delete constraints after A2 reported the entity, and an entity carrying data
+    of both child stores is updated alike through either), and a delete raises the same events. -/
+theorem child_store_registration_order_irrelevant (a2First : Bool) (st : St) (op : Op) :
+    stepOpOrd a2First Config.current st op = stepOp Config.current st op ∧
+    (∀ s id ev, ev ∈ eventsOfOrd a2First st (.delete s id) ↔ ev ∈ eventsOf st (.delete s id)) ∧
+    (∀ op', eventsOfOrd false st op' = eventsOf st op') :=
+  ⟨stepOpOrd_order_irrelevant a2First _ st op, delete_events_order a2First st, eventsOfOrd_false st⟩
+
+/-- … in particular after a delete through any store, in either wiring, no index entry of the
+    parent or of a child store refers to the id -/
+theorem delete_fans_out_to_every_child_store (a2First : Bool) (st : St) (hr : Reached st) (s : Sel) (id : Id)
+    (st' : St) (h : deleteMOrd a2First st s id = .ok st') :
+    Inv st' ∧ mget st'.ents id = none ∧
+    (∀ v, mget st'.nameIdx v ≠ some id) ∧ (∀ r, (r, id) ∉ st'.rolesIdx) ∧ (∀ c, mget st'.codeIdx c ≠ some id) := by
+  rw [deleteMOrd_order_irrelevant] at h
+  obtain ⟨a, b, c, d, e, _⟩ := delete_leaves_no_trace st hr s id st' h
+  exact ⟨a, b, c, d, e⟩
+
+/-- non-vacuity: an A1 entity deleted through the parent with A2 registered first — A2 reports it
+    first, A1's `code` entry is removed all the same, all three stores' listeners hear of it -/
+example :
+    let st := run Config.current St.init [[.create .A1 1 ⟨1, [1], some 2⟩]]
+    mget st.codeIdx 2 = some 1 ∧
+    (deleteMOrd true st .A 1).toOption.map (fun st' => mget st'.codeIdx 2) = some none ∧
+    eventsOfOrd true st (.delete .A 1) = [⟨.A, .deleted, 1⟩, ⟨.A2, .deleted, 1⟩, ⟨.A1, .deleted, 1⟩] := by decide
+
 /-! ### non-vacuity -/
 
 /-- a mixed population reached through all three stores, with a child create over an existing
@@ -290,4 +446,12 @@ end StorageModel.Properties.C15
 #print axioms StorageModel.Properties.C15.delete_leaves_no_trace
 #print axioms StorageModel.Properties.C15.child_data_changes_only_by_create_delete
 #print axioms StorageModel.Properties.C15.uniqueness_enforced_through_child
+#print axioms StorageModel.Properties.C15.iterate_ids_cursor_is_list_cursor
+#print axioms StorageModel.Properties.C15.iterate_valid_ids_cursor_is_list_cursor
+#print axioms StorageModel.Properties.C15.cursor_rests_only_on_owned_ids
+#print axioms StorageModel.Properties.C15.query_lists_are_owned_ids
+#print axioms StorageModel.Properties.C15.query_with_cursor_only_owned_rows
+#print axioms StorageModel.Properties.C15.roles_index_cursor_enumerates_holders
+#print axioms StorageModel.Properties.C15.child_store_registration_order_irrelevant
+#print axioms StorageModel.Properties.C15.delete_fans_out_to_every_child_store
 #print axioms StorageModel.Properties.C15.pinned_create_violates
